@@ -43,11 +43,15 @@ def main():
             open(path, "w").write(src.replace(m["old"], m["new"]))
             tests = ""
             if run_tests:
-                r = subprocess.run(
-                    ["/venv/bin/python", "-m", "pytest", "-q", "-x", "-p",
-                     "no:cacheprovider", "test"], cwd=tmp,
-                    env={**os.environ, "PYTHONPATH": tmp}, capture_output=True, text=True)
-                tests = "tests-pass" if r.returncode == 0 else "TESTS-FAIL"
+                try:
+                    r = subprocess.run(
+                        ["/venv/bin/python", "-m", "pytest", "-q", "-x", "-p",
+                         "no:cacheprovider", "test"], cwd=tmp,
+                        env={**os.environ, "PYTHONPATH": tmp}, capture_output=True,
+                        text=True, timeout=600)
+                    tests = "tests-pass" if r.returncode == 0 else "TESTS-FAIL"
+                except subprocess.TimeoutExpired:
+                    tests = "TESTS-HANG"
             env = {**os.environ, "PYMBOLIC_SRC": tmp, "VERIF_OUT_DIR": tmp}
             r = subprocess.run([os.path.join(VERIF, "check"), prop, tier], env=env,
                                capture_output=True, text=True)
